@@ -431,7 +431,7 @@ const (
 )
 
 var replyKinds = []string{
-	"canon", "canon", "canon-mutated", "canon-mutated", "canon-mutated", "empty-result", "text-only-result", "text-then-canon", "canon-then-text",
+	"canon", "canon", "canon-mutated", "canon-mutated", "canon-mutated", "canon-recased", "empty-result", "text-only-result", "text-then-canon", "canon-then-text",
 	"error", "error-text-first", "error-empty", "error-no-payload", "error-garbage", "error-echo",
 	"wrong-payload", "wrong-namespace", "nested-garbage", "two-payloads", "type-get", "no-type", "pre-only",
 	"broken-xml", "broken-xml", "truncated",
@@ -499,6 +499,47 @@ func genReply(t *rapid.T, h *helper) breply {
 			r.muts = append(r.muts, "pre:"+mutate(t, p))
 			pre = render(p)
 		}
+		r.stanza = pre + render(n)
+	case "canon-recased":
+		// the canonical answer from an implementation that spells tokens its own
+		// way: every attribute value and text of the payload in lower case,
+		// upper case or with the case of each letter swapped
+		n := lit(wrapReply(kind, "result", from, canon))
+		how := rapid.SampledFrom([]string{"lower", "upper", "swap"}).Draw(t, "recase")
+		re := func(v string) string {
+			switch how {
+			case "lower":
+				return strings.ToLower(v)
+			case "upper":
+				return strings.ToUpper(v)
+			}
+			return strings.Map(func(c rune) rune {
+				switch {
+				case c >= 'a' && c <= 'z':
+					return c - 32
+				case c >= 'A' && c <= 'Z':
+					return c + 32
+				}
+				return c
+			}, v)
+		}
+		var walk func(x *xt.Node)
+		walk = func(x *xt.Node) {
+			for _, c := range x.Children {
+				if c.IsText() {
+					c.Text = re(c.Text)
+					continue
+				}
+				for i := range c.Attr {
+					if c.Attr[i].Name.Local != "xmlns" && c.Attr[i].Name.Space != "xmlns" {
+						c.Attr[i].Value = re(c.Attr[i].Value)
+					}
+				}
+				walk(c)
+			}
+		}
+		walk(n)
+		r.muts = append(r.muts, "recased-"+how)
 		r.stanza = pre + render(n)
 	case "empty-result":
 		r.stanza = wrapReply(kind, "result", from, "")
